@@ -89,6 +89,270 @@ def canon(n, swap=False):
     return A.show(n)
 
 
+# ------------------------------------------------------------------ antisymmetry of delegated orderings
+
+def rename(n, m):
+    """deep copy of n with path names renamed by m"""
+    if isinstance(n, list):
+        return [rename(x, m) for x in n]
+    if not isinstance(n, dict):
+        return n
+    if n.get("e") == "path" and n["p"] in m:
+        return dict(n, p=m[n["p"]], full=m[n["p"]])
+    return {k: rename(v, m) for k, v in n.items()}
+
+
+def unblock(n):
+    n = A.strip(n)
+    while n.get("e") == "block" and len(n["stmts"]) == 1 and n["stmts"][0].get("s") == "expr":
+        n = A.strip(n["stmts"][0]["x"])
+    return n
+
+
+CMP_METHODS = ("cmp", "partial_cmp", "total_cmp")
+ORD_CONST = {"Equal": "Equal", "Less": "Greater", "Greater": "Less"}
+
+
+class Antisym:
+    """Syntactic proof that an ordering body O satisfies O(b, a) == reverse(O(a, b)).
+    sigma exchanges the two operands.  Problems are (kind, text) pairs; an empty list is a proof."""
+
+    def __init__(self, tree, module):
+        self.tree = tree
+        self.module = module
+        self.problems = []
+        self.depth = 0
+
+    def sym_expr(self, n, sigma):
+        return canon(n) == canon(rename(n, sigma))
+
+    def swapped(self, x, y, sigma):
+        return canon(rename(x, sigma)) == canon(y) and canon(rename(y, sigma)) == canon(x)
+
+    def check(self, n, sigma):
+        n = unblock(n)
+        e = n.get("e")
+        if e == "path":
+            last = n["p"].rsplit("::", 1)[-1]
+            if last in ORD_CONST or last == "None":
+                return
+            self.problems.append(("unrecognised", A.show(n)[:60]))
+            return
+        if e == "call" and n["f"].get("e") == "path":
+            fn = n["f"]["p"]
+            last = fn.rsplit("::", 1)[-1]
+            if last == "Some" and len(n["args"]) == 1:
+                return self.check(n["args"][0], sigma)
+            if len(n["args"]) == 2:
+                a, b = n["args"]
+                if not self.swapped(a, b, sigma):
+                    self.problems.append(("asymmetric-compare", A.show(n)[:80]))
+                    return
+                # a free comparison helper: its own body must be antisymmetric in its two parameters
+                g = [f for f in self.tree.fn_list if f["path"] == self.module + last and len(f["sig"]["params"]) == 2]
+                if len(g) == 1 and self.depth < 3:
+                    ps = [p.get("pat", {}).get("n") for p in g[0]["sig"]["params"]]
+                    if all(ps):
+                        self.depth += 1
+                        self.check(g[0]["body"], {ps[0]: ps[1], ps[1]: ps[0]})
+                        self.depth -= 1
+                        return
+                self.problems.append(("unrecognised", f"comparison helper {fn}"))
+                return
+        if e == "mcall":
+            m = n["m"]
+            if m in CMP_METHODS and len(n["args"]) == 1:
+                if not self.swapped(n["recv"], n["args"][0], sigma):
+                    self.problems.append(("asymmetric-compare", A.show(n)[:80]))
+                return
+            if m in ("unwrap", "reverse") and not n["args"]:
+                return self.check(n["recv"], sigma)
+            if m in ("then", "then_with", "or", "or_else") and len(n["args"]) == 1:
+                self.check(n["recv"], sigma)
+                a = unblock(n["args"][0])
+                if a.get("e") == "closure":
+                    a = a["body"]
+                return self.check(a, sigma)
+        if e == "if":
+            c = A.strip(n["cond"])
+            if c.get("e") == "let":
+                if self.sym_expr(c["x"], sigma):
+                    self.check(n["then"], sigma)
+                else:
+                    self.problems.append(("asymmetric-binding", A.show(c)[:80]))
+            else:
+                if not self.sym_expr(c, sigma):
+                    self.problems.append(("asymmetric-condition", A.show(c)[:80]))
+                self.check(n["then"], sigma)
+            if n.get("else") is not None:
+                self.check(n["else"], sigma)
+            else:
+                self.problems.append(("unrecognised", "if without else"))
+            return
+        if e == "match":
+            on = A.strip(n["on"])
+            if on.get("e") == "tuple" and len(on["xs"]) == 2:
+                if not self.swapped(on["xs"][0], on["xs"][1], sigma):
+                    self.problems.append(("asymmetric-scrutinee", A.show(on)[:80]))
+                    return
+                return self.arms(n["arms"], sigma)
+            # lexicographic idiom: match <antisymmetric comparison> { Equal => <next>, o => o / None => None }
+            before = len(self.problems)
+            self.check(on, sigma)
+            if len(self.problems) != before:
+                return
+            for arm in n["arms"]:
+                pt = A.showpat(arm["pat"])
+                b = unblock(arm["body"])
+                if arm["pat"].get("p") == "bind" and not arm["pat"].get("sub"):
+                    if not (b.get("e") == "path" and b["p"] == arm["pat"]["n"]):
+                        self.problems.append(("unrecognised", f"arm `{pt}` does not pass the ordering through"))
+                elif pt.endswith("Equal") or pt.endswith("Equal)") or pt == "None":
+                    if arm.get("guard") is not None and not self.sym_expr(arm["guard"], sigma):
+                        self.problems.append(("asymmetric-guard", f"{pt} if {A.show(arm['guard'])[:60]}"))
+                    self.check(b, sigma)
+                else:
+                    self.problems.append(("unrecognised", f"arm `{pt}` of a match on an ordering"))
+            return
+        self.problems.append(("unrecognised", A.show(n)[:80]))
+
+    def arms(self, arms, sigma):
+        """match (x, y) with (x, y) swap-symmetric: the arm set must be closed under mirroring"""
+        def side_names(p, tag):
+            out = {}
+            i = 0
+            for b in _binders_in(p):
+                out[b] = f"${tag}{i}"
+                i += 1
+            return out
+
+        def render(arm, flip):
+            pat = arm["pat"]
+            pats = [pat]
+            if pat.get("p") == "or":
+                pats = pat["xs"]
+            outs = []
+            for pt in pats:
+                if pt.get("p") != "tuple" or len(pt["xs"]) != 2:
+                    return None
+                p1, p2 = pt["xs"]
+                if flip:
+                    p1, p2 = p2, p1
+                m = {}
+                m.update(side_names(p1, "L"))
+                m.update(side_names(p2, "R"))
+                ps = _pat_str(p1, m) + " , " + _pat_str(p2, m)
+                g = canon(rename(arm["guard"], m)) if arm.get("guard") is not None else ""
+                body = rename(arm["body"], m)
+                outs.append((ps, g, body))
+            return outs
+
+        direct, mirror = [], []
+        for arm in arms:
+            d, f = render(arm, False), render(arm, True)
+            if d is None:
+                self.problems.append(("unrecognised", f"arm pattern {A.showpat(arm['pat'])[:50]}"))
+                return
+            direct.extend((ps, g, body, arm) for ps, g, body in d)
+            mirror.extend((ps, g, body, arm) for ps, g, body in f)
+        sig = {"$L%d" % i: "$R%d" % i for i in range(8)}
+        sig.update({v: k for k, v in list(sig.items())})
+        for ps, g, body, arm in mirror:
+            # the mirrored arm must exist among the direct arms: same patterns, same guard, reversed body
+            cands = [(dg, db) for dps, dg, db, _ in direct if dps == ps]
+            label = A.showpat(arm["pat"])[:50] + (f" if {A.show(arm['guard'])[:40]}" if arm.get("guard") is not None else "")
+            if not cands:
+                self.problems.append(("unmirrored-arm", label))
+                continue
+            if not any(dg == g for dg, _ in cands):
+                self.problems.append(("asymmetric-guard", label))
+                continue
+            ok = False
+            for dg, db in cands:
+                if dg != g:
+                    continue
+                # db(x, y) must be reverse(body(y, x)); body was rendered with flipped sides, so its L/R names
+                # already denote (x, y): require db == reverse(body), i.e. comparisons with exchanged operands
+                if self.reverse_equal(db, body):
+                    ok = True
+            if not ok:
+                self.problems.append(("unmirrored-arm-body", label))
+
+    def reverse_equal(self, a, b):
+        """a == reverse(b) for two expressions over the same names"""
+        a, b = unblock(a), unblock(b)
+        if a.get("e") == "path" and b.get("e") == "path":
+            la, lb = a["p"].rsplit("::", 1)[-1], b["p"].rsplit("::", 1)[-1]
+            if la in ORD_CONST:
+                return ORD_CONST[la] == lb
+            return la == lb == "None"
+        if a.get("e") != b.get("e"):
+            return False
+        if a.get("e") == "mcall" and a["m"] == b["m"] and len(a["args"]) == len(b["args"]):
+            if a["m"] in CMP_METHODS and len(a["args"]) == 1:
+                return canon(a["recv"]) == canon(b["args"][0]) and canon(a["args"][0]) == canon(b["recv"])
+            if a["m"] in ("unwrap",):
+                return self.reverse_equal(a["recv"], b["recv"])
+            if a["m"] in ("then", "then_with", "or", "or_else") and len(a["args"]) == 1:
+                x, y = unblock(a["args"][0]), unblock(b["args"][0])
+                if x.get("e") == "closure" and y.get("e") == "closure":
+                    x, y = x["body"], y["body"]
+                return self.reverse_equal(a["recv"], b["recv"]) and self.reverse_equal(x, y)
+        if a.get("e") == "call" and a["f"].get("e") == "path" and b["f"].get("e") == "path" and a["f"]["p"] == b["f"]["p"]:
+            if a["f"]["p"].rsplit("::", 1)[-1] == "Some" and len(a["args"]) == 1:
+                return self.reverse_equal(a["args"][0], b["args"][0])
+            if len(a["args"]) == 2 and len(b["args"]) == 2:
+                return canon(a["args"][0]) == canon(b["args"][1]) and canon(a["args"][1]) == canon(b["args"][0])
+        return False
+
+
+def _binders_in(p):
+    out = []
+
+    def rec(x):
+        if not isinstance(x, dict):
+            return
+        if x.get("p") == "bind":
+            out.append(x["n"])
+            if x.get("sub"):
+                rec(x["sub"])
+        for y in x.get("xs", []) or []:
+            rec(y)
+        for _, y in x.get("fields", []) or []:
+            rec(y)
+        if x.get("p") == "ref":
+            rec(x["x"])
+    rec(p)
+    return out
+
+
+def _pat_str(p, m):
+    s = A.showpat(p)
+    return "".join(m.get(t, t) for t in re.split(r"(\W+)", s))
+
+
+def delegated_ordering(tree, f):
+    """If eq's body only asks an ordering of the same type for equality, return that ordering fn."""
+    b = unblock(f["body"])
+    txt = canon(b)
+    if not re.search(r"\b(self|other)\.(cmp|partial_cmp)\((self|other)\)", txt):
+        return None
+    ty = re.sub(r"<.*", "", f["_impl"]["self_ty"])
+    mod = f["_impl"]["mod"]
+    which = "cmp" if ".cmp(" in txt else "partial_cmp"
+    for _ in range(2):
+        c = [g for g in tree.fn_list if g.get("_impl") and g["sig"]["name"] == which and g["_impl"]["mod"] == mod
+             and re.sub(r"<.*", "", g["_impl"]["self_ty"]) == ty and not any("automatically_derived" in a for a in g["_impl"]["attrs"])]
+        if len(c) != 1:
+            return None
+        gb = unblock(c[0]["body"])
+        if canon(gb) in ("Some(self.cmp(other))", "Some(other.cmp(self).reverse())"):
+            which = "cmp"
+            continue
+        return c[0]
+    return None
+
+
 def hand_written_eq(tree):
     out = []
     for f in tree.fn_list:
@@ -116,6 +380,7 @@ def run(ctx, F):
     if not any(f["sig"]["name"] == "ne" for f in hw):
         ctx.ok("F8-ne-not-overridden", "no PartialEq::ne override in the crate", {"impls": len(hw)})
     # ---------------------------------------------------------------- (iii)
+    n_ordering = 0
     for f in hw:
         if f["sig"]["name"] != "eq":
             continue
@@ -131,13 +396,29 @@ def run(ctx, F):
             value_eq_table(ctx, tree, f)
             continue
         a, b = canon(f["body"], False), canon(f["body"], True)
+        ordf = delegated_ordering(tree, f) if a != b else None
         if a == b:
             ctx.ok("F5-swap-symmetric", key, {"canonical": a[:160]})
+        elif ordf is not None:
+            # eq asks an ordering for Equal: symmetric iff the ordering is antisymmetric
+            an = Antisym(tree, mod)
+            an.check(ordf["body"], {"self": "other", "other": "self"})
+            okey = f"{mod}{ty}::{ordf['sig']['name']}"
+            n_ordering += 1
+            if not an.problems:
+                ctx.ok("F5-ordering-antisymmetric", okey, "every comparison exchanges its operands under self<->other; match arms closed under mirroring; conditions symmetric")
+            for kind, text in an.problems:
+                pk = f"{okey}|{kind}:{text}"
+                if pk in reviewed:
+                    ctx.reviewed("F5-ordering-antisymmetric", pk, reviewed[pk])
+                else:
+                    ctx.fail("F5-ordering-antisymmetric", pk, f"{ty}::eq asks {ordf['sig']['name']} for equality, and that ordering is not antisymmetric in self/other ({kind}: `{text}`): `a == b` can differ from `b == a`", where=ordf["path"])
         elif key in reviewed:
             ctx.reviewed("F5-swap-symmetric", key, reviewed[key])
         else:
             # the instance is the body itself: a different asymmetric body is a different violation
             ctx.fail("F5-swap-symmetric", f"{key}|{a}", f"{ty}::eq is not symmetric in self/other: `{a[:200]}` vs swapped `{b[:200]}`; `a == b` can differ from `b == a`")
+    ctx.floor("hand-written eq bodies that delegate to an ordering", n_ordering, 3)
     # derived PartialEq on OrderMap (or a hand-written one) is judged here for symmetry, under C13 for order
     # ---------------------------------------------------------------- (iv)
     pc = tree.one_method("value::number::Number", "partial_cmp")
